@@ -14,6 +14,7 @@ import (
 	"testing"
 	"time"
 
+	plugin "github.com/hashicorp/go-plugin"
 	"github.com/hashicorp/go-plugin/verifharness/vp"
 )
 
@@ -24,6 +25,9 @@ type sfCase struct {
 	Line   hsLine `json:"line"`   // for cause "line"
 	Cfg    hsCfg  `json:"cfg"`
 	Var    int    `json:"variant"`
+	// Shared (runner launch): a second client that shares this one's *UnixSocketConfig is started -- a healthy
+	// plugin -- after the failed Start and before the Kill of the failed client
+	Shared bool `json:"shared,omitempty"`
 }
 
 func runStartFailCase(c sfCase, bin, tmp string) map[string]interface{} {
@@ -98,6 +102,19 @@ func runStartFailCase(c sfCase, bin, tmp string) map[string]interface{} {
 	}
 	out["pid_gone"] = vp.PidGone(pid)
 	out["pid_gone_ms"] = time.Since(t1).Milliseconds()
+	out["other_ok"] = true
+	var other *vp.Pair
+	if c.Shared && p.Wrap != nil {
+		opc := &vp.PluginCfg{LegacyVersion: 1, Legacy: &vp.SetCfg{Proto: "grpc", Tag: "1"}, GRPCServer: true}
+		ohc := &vp.HostCfg{Launch: "runner", StartTimeoutMs: 8000, TempDir: tmp, SkipHostEnv: true, Allowed: []string{"netrpc", "grpc"}, LegacyVersion: 1, Legacy: &vp.SetCfg{Proto: "grpc", Tag: "1"}}
+		other = vp.NewPair(bin, ohc, opc, nil, nil)
+		other.Config.UnixSocketConfig = p.Config.UnixSocketConfig // the very same struct
+		other.Client = plugin.NewClient(other.Config)
+		if _, _, err := other.Dispense(); err != nil {
+			out["other_ok"] = false
+			out["other_err"] = "start: " + truncate(err.Error(), 120)
+		}
+	}
 	// a later Kill returns promptly and removes the runner's socket directory
 	t2 := time.Now()
 	p.Client.Kill()
@@ -107,6 +124,27 @@ func runStartFailCase(c sfCase, bin, tmp string) map[string]interface{} {
 	if p.Wrap != nil && p.Wrap.TmpDir != "" {
 		if _, err := os.Stat(p.Wrap.TmpDir); err == nil {
 			out["tmp_present_after_kill"] = true
+		}
+	}
+	if other != nil {
+		// the other client's directory is its own: still there, still usable; gone after its own Kill
+		if other.Wrap == nil || other.Wrap.TmpDir == "" {
+			out["other_ok"] = false
+			out["other_err"] = "no directory"
+		} else {
+			if _, err := os.Stat(other.Wrap.TmpDir); err != nil {
+				out["other_ok"] = false
+				out["other_err"] = "the running client's socket directory was removed by the failed client's Kill"
+			}
+			if cp, err := other.Client.Client(); err != nil || cp.Ping() != nil {
+				out["other_ok"] = false
+				out["other_err"] = fmt.Sprint(out["other_err"], "; the running client no longer answers")
+			}
+			other.Client.Kill()
+			if _, err := os.Stat(other.Wrap.TmpDir); err == nil {
+				out["other_ok"] = false
+				out["other_err"] = fmt.Sprint(out["other_err"], "; its directory is still there after its own Kill")
+			}
 		}
 	}
 	if !vp.PidGone(pid) {
